@@ -65,7 +65,7 @@ def cfgs_for(d, p, cfgset, tier):
             for k in (None, 'ldl2'):
                 out.append({'entry': 'conelp', 'storageG': 'sparse', 'storageA': 'dense', 'kkt': k})
                 out.append({'entry': 'conelp', 'storageG': 'dense', 'storageA': 'sparse', 'kkt': k, 'opts': LOOSE})
-        for stt in ('both', 'primal', 'dual'):
+        for stt in ('both', 'primal', 'dual', 'warm'):
             out.append({'entry': 'conelp', 'storage': 'dense', 'kkt': None, 'start': stt})
             out.append({'entry': 'conelp', 'storage': 'sparse', 'kkt': 'ldl', 'start': stt, 'opts': LOOSE})
         if d['l'] + sum(d['q']) + sum(d['s']) > 0:
@@ -91,6 +91,10 @@ def cfgs_for(d, p, cfgset, tier):
         for ent in ['conelp'] + (['lp'] if only_l else []) + (['socp'] if not d['s'] else []) + (['sdp'] if not d['q'] else []):
             out.append({'entry': ent, 'storage': 'dense', 'kkt': None, 'via': 'global', 'opts': OPTSETS['tight'], 'optname': 'tight'})
             out.append({'entry': ent, 'storage': 'sparse', 'kkt': None, 'via': 'global', 'prelude': LOOSE})
+            # a per-call dictionary without tolerances while the globals hold loose ones: the defaults apply
+            out.append({'entry': ent, 'storage': 'dense', 'kkt': None, 'poison': dict(LOOSE, maxiters=3)})
+            # abstol = 0 is a legal value (relative criterion only)
+            out.append({'entry': ent, 'storage': 'dense', 'kkt': None, 'opts': {'abstol': 0.0, 'reltol': 1e-6}, 'optname': 'abstol0'})
         if only_l:
             for st in ('dense', 'sparse'):
                 out.append({'entry': 'lp', 'storage': st, 'kkt': None})
@@ -102,6 +106,7 @@ def cfgs_for(d, p, cfgset, tier):
                 out.append({'entry': 'socp', 'storage': st, 'kkt': 'ldl', 'start': 'both'})
                 out.append({'entry': 'socp', 'storage': st, 'kkt': 'chol', 'start': 'dual'})
         if not d['q']:
+            out.append({'entry': 'sdp', 'storage': 'dense', 'kkt': None, 'start': 'warm'})
             for st in ('dense', 'sparse'):
                 out.append({'entry': 'sdp', 'storage': st, 'kkt': None})
                 out.append({'entry': 'sdp', 'storage': st, 'kkt': 'ldl2', 'start': 'both'})
